@@ -273,9 +273,11 @@ def gen_policy(rng, tier, seed):
     items = [{"prio": rng.randint(0, 3), "flow": rng.choice(FLOWS),
               "dl": rng.choice([rng.randint(0, 4), rng.randint(0, 12), rng.randint(5, 60)]) if wide else rng.randint(0, 12)}
              for _ in range(n)]
-    p_purge = rng.choice([0.0, 0.08, 0.15]) if cfg["type"] == "deadline" else 0.0
+    p_purge = rng.choice([0.0, 0.1, 0.2]) if cfg["type"] == "deadline" else 0.0
     ops, t, nxt = [], 0, 0
     p_pop = rng.choice([0.25, 0.4, 0.55])
+    if p_purge:
+        p_pop = rng.choice([0.1, 0.2, 0.3])         # housekeeping scripts: let the heap grow, purge, then drain
     for _ in range(rng.randint(6, 70)):
         if rng.random() < 0.3:
             t += rng.choice([1, 1, 2, 3, 5])
@@ -287,12 +289,16 @@ def gen_policy(rng, tier, seed):
         elif r < p_pop + 0.14:
             ops.append({"op": "query", "t": t})
         elif r < p_pop + 0.14 + p_purge:
+            if rng.random() < 0.6:
+                t += rng.choice([1, 2, 3, 5, 8])
             ops.append({"op": "purge", "t": t})
         elif nxt < n:
             ops.append({"op": "push", "it": nxt, "t": t})
             nxt += 1
         else:
             ops.append({"op": "pop", "t": t})
+    if p_purge:
+        ops.extend({"op": "pop", "t": t} for _ in range(rng.randint(0, 8)))
     return {"seed": seed, "kind": "policy", "policy": cfg, "flow_weights": {f: rng.randint(1, 3) for f in FLOWS},
             "items": items, "ops": ops}
 
